@@ -33,7 +33,7 @@ def internal_name(g, s):
 
 
 def random_grammar(rnd, nT=None, nN=None, max_alts=3, max_len=3, p_term=0.55, p_lit=0.25, p_prec=0.0,
-                   p_nullable=None, want_tags=True):
+                   p_nullable=None, want_tags=True, p_shuffle=0.3):
     nT = nT or rnd.randint(1, 4)
     nN = nN or rnd.randint(1, 4)
     lits = rnd.sample(LITS, min(len(LITS), nT))
@@ -50,6 +50,8 @@ def random_grammar(rnd, nT=None, nN=None, max_alts=3, max_len=3, p_term=0.55, p_
             for _ in range(rnd.choice(lens)):
                 rhs.append(('t', rnd.randrange(nT)) if rnd.random() < p_term else ('n', rnd.randrange(nN)))
             rules.append(dict(lhs=a, rhs=rhs, prec=None, c=rnd.randint(0, 9), coef=[rnd.randint(1, 9) for _ in rhs]))
+    if rnd.random() < p_shuffle:
+        rnd.shuffle(rules)            # the rules of one nonterminal need not be written next to each other
     precs = []
     if rnd.random() < p_prec:
         pool = list(range(nT))
